@@ -17,6 +17,7 @@ from rv.core.tolerances import OPEN_END_EPS
 
 ANCHORS = ("arrays/operations.py", "arrays/dimensions.py")
 THOROUGH_SHARDS = 10
+AMBIENT_TESTS = ["tests/test_array", "tests/test_arrays"]
 FILL = -7.0
 _installed = False
 
